@@ -158,6 +158,113 @@ pub fn shim_hashset_extend<T: Eq + Hash>(s: &mut HashSet<T>, other: HashSet<T>)
 } // verus!
 }
 pub use crate::stdx3::*;
+pub mod stdx4 {
+use vstd::prelude::*;
+verus! {
+// ---- Vec iterator-chain shims (N2).  Each takes the closure of the replaced chain plus a ghost
+// predicate / function `p` that the closure must compute (checked at the call site through the
+// closure's `ensures`), so the contract can be stated with vstd's Seq::filter / map_values.
+
+/// `V.iter().filter(F).count()`
+#[verifier::external_body]
+pub fn shim_vec_iter_filter_count<T, F: FnMut(&&T) -> bool>(v: &Vec<T>, Ghost(p): Ghost<spec_fn(T) -> bool>, f: F) -> (r: usize)
+    requires
+        forall|i: int| 0 <= i < v@.len() ==> call_requires(f, (&&#[trigger] v@[i],)),
+        forall|i: int, b: bool| 0 <= i < v@.len() && call_ensures(f, (&&#[trigger] v@[i],), b) ==> b == p(v@[i]),
+    ensures r == v@.filter(p).len(),
+{
+    v.iter().filter(f).count()
+}
+
+/// `V.into_iter().filter(F).collect()` into a Vec
+#[verifier::external_body]
+pub fn shim_vec_into_filter_collect<T, F: FnMut(&T) -> bool>(v: Vec<T>, Ghost(p): Ghost<spec_fn(T) -> bool>, f: F) -> (r: Vec<T>)
+    requires
+        forall|i: int| 0 <= i < v@.len() ==> call_requires(f, (&#[trigger] v@[i],)),
+        forall|i: int, b: bool| 0 <= i < v@.len() && call_ensures(f, (&#[trigger] v@[i],), b) ==> b == p(v@[i]),
+    ensures r@ == v@.filter(p),
+{
+    v.into_iter().filter(f).collect()
+}
+
+/// `V.into_iter().filter(F1).filter(F2).collect::<Vec<_>>()`
+#[verifier::external_body]
+pub fn shim_vec_into_filter2_collect<T, F1: FnMut(&T) -> bool, F2: FnMut(&T) -> bool>(v: Vec<T>, Ghost(p1): Ghost<spec_fn(T) -> bool>, f1: F1, Ghost(p2): Ghost<spec_fn(T) -> bool>, f2: F2) -> (r: Vec<T>)
+    requires
+        forall|i: int| 0 <= i < v@.len() ==> call_requires(f1, (&#[trigger] v@[i],)) && call_requires(f2, (&v@[i],)),
+        forall|i: int, b: bool| 0 <= i < v@.len() && call_ensures(f1, (&#[trigger] v@[i],), b) ==> b == p1(v@[i]),
+        forall|i: int, b: bool| 0 <= i < v@.len() && call_ensures(f2, (&#[trigger] v@[i],), b) ==> b == p2(v@[i]),
+    ensures r@ == v@.filter(p1).filter(p2),
+{
+    v.into_iter().filter(f1).filter(f2).collect::<Vec<_>>()
+}
+
+/// `V.retain(F)`
+#[verifier::external_body]
+pub fn shim_vec_retain<T, F: FnMut(&T) -> bool>(v: &mut Vec<T>, Ghost(p): Ghost<spec_fn(T) -> bool>, f: F)
+    requires
+        forall|i: int| 0 <= i < old(v)@.len() ==> call_requires(f, (&#[trigger] old(v)@[i],)),
+        forall|i: int, b: bool| 0 <= i < old(v)@.len() && call_ensures(f, (&#[trigger] old(v)@[i],), b) ==> b == p(old(v)@[i]),
+    ensures final(v)@ == old(v)@.filter(p),
+{
+    v.retain(f)
+}
+
+/// `V.extend(W)` for two Vecs
+#[verifier::external_body]
+pub fn shim_vec_extend<T>(v: &mut Vec<T>, w: Vec<T>)
+    ensures final(v)@ == old(v)@ + w@,
+{
+    v.extend(w)
+}
+
+/// `V.into_iter().filter_map(F).collect()` into a Vec; relational contract: the result is the
+/// concatenation, in order, of the `Some` outputs F produced
+pub open spec fn fm_rel<T>(src: Seq<T>, outs: Seq<Option<T>>, r: Seq<T>) -> bool
+    decreases src.len(),
+{
+    if src.len() == 0 { outs.len() == 0 && r.len() == 0 }
+    else if outs.len() != src.len() { false }
+    else { match outs.last() {
+        Some(x) => r.len() > 0 && r.last() == x && fm_rel(src.drop_last(), outs.drop_last(), r.drop_last()),
+        None => fm_rel(src.drop_last(), outs.drop_last(), r),
+    } }
+}
+#[verifier::external_body]
+pub fn shim_vec_into_filter_map_collect<T, F: FnMut(T) -> Option<T>>(v: Vec<T>, f: F) -> (r: Vec<T>)
+    requires forall|i: int| 0 <= i < v@.len() ==> call_requires(f, (#[trigger] v@[i],)),
+    ensures exists|outs: Seq<Option<T>>| outs.len() == v@.len() && (forall|i: int| 0 <= i < v@.len() ==> call_ensures(f, (v@[i],), #[trigger] outs[i])) && fm_rel(v@, outs, r@),
+{
+    v.into_iter().filter_map(f).collect()
+}
+
+/// `V.iter().fold(INIT, F)`: the result is reached through the chain of accumulators F produced
+pub open spec fn fold_chain<T, B>(acc: Seq<B>, n: int, init: B, r: B) -> bool {
+    acc.len() == n + 1 && acc[0] == init && acc[n] == r
+}
+#[verifier::external_body]
+pub fn shim_vec_iter_fold<T, B, F: FnMut(B, &T) -> B>(v: &Vec<T>, init: B, Ghost(inv): Ghost<spec_fn(int, B) -> bool>, f: F) -> (r: B)
+    requires
+        inv(0, init),
+        forall|i: int, b: B| 0 <= i < v@.len() && inv(i, b) ==> call_requires(f, (b, &#[trigger] v@[i])),
+        forall|i: int, b: B, b2: B| 0 <= i < v@.len() && inv(i, b) && call_ensures(f, (b, &#[trigger] v@[i]), b2) ==> inv(i + 1, b2),
+    ensures inv(v@.len() as int, r),
+{
+    v.iter().fold(init, f)
+}
+
+/// `V.iter().cloned().map(F).collect()` into a Vec
+#[verifier::external_body]
+pub fn shim_vec_iter_cloned_map_collect<T: Clone, U, F: FnMut(T) -> U>(v: &Vec<T>, f: F) -> (r: Vec<U>)
+    requires forall|i: int, x: T| 0 <= i < v@.len() && #[trigger] cloned(v@[i], x) ==> call_requires(f, (x,)),
+    ensures r@.len() == v@.len(), forall|i: int| #![trigger r@[i]] 0 <= i < v@.len() ==> exists|x: T| #[trigger] cloned(v@[i], x) && call_ensures(f, (x,), r@[i]),
+{
+    v.iter().cloned().map(f).collect()
+}
+
+} // verus!
+}
+pub use crate::stdx4::*;
 pub mod stdx2 {
 use vstd::prelude::*;
 use vstd::std_specs::iter::IteratorSpec;
